@@ -117,3 +117,15 @@ claim('C19',
       'rounding - an argument, not a solver result); array elements restricted to >= 1400 A (below that numpy evaluates and discards an '
       'inf at the poles of the Ciddor factor); filter_thru/sdssflux2ab run in mixed mode (concrete sub-computations in IEEE double, 1e-9 / '
       '1e-12 tolerances). astropy Quantity input is NOT covered (units machinery cannot carry symbolic values).', 'DESIGN.md 4/C19')
+claim('C12',
+      'PARTIAL. cap_distance / is_in_cap / is_cap_used / is_in_polygon / is_in_window / set_use_caps and the keyword and copy constructors of '
+      'ManglePolygon are executed with cap centres, cap sizes cm in (-2,2), points (Cartesian unit vectors, or RA/Dec through angles_to_x) '
+      'and the use-mask all symbolic: for every such configuration within the bounds a point is reported inside a polygon exactly when it '
+      'is inside every cap selected by the use-mask (first n caps when ncaps is given; a polygon without caps contains everything), the '
+      'window lookup returns the first containing polygon in list order (-1/False if none), and set_use_caps selects exactly the listed '
+      'caps minus later (near-)duplicates.',
+      'arccos is a strictly decreasing function symbol (value per application + pairwise monotonicity instances), degrees/radians positive '
+      'scalings, sin/cos opaque values with s^2+c^2=1 (reference uses the same conversion); |x.p| <= 1 supplied as a lemma. NOT covered: the '
+      'three storage formats (Mangle text / FITS table / window_read assembly: astropy I/O) and IEEE rounding of x.p at a cap centre (exact '
+      'reals cannot see arccos(1+eps) = NaN). Bounds: <= 2 caps x 1-2 points (3 caps thorough), <= 3 polygons, index lists over 3 caps up to '
+      'length 2 (3 thorough).', 'DESIGN.md 4/C12')
